@@ -6,7 +6,8 @@ open Pyemv Pyemv.Gen
 
 theorem sm_generate_command_mac (sk c : Bytes) (l : Option Nat) : Gen.sm.generate_command_mac sk c l = generateCommandMac sk c l := by
   unfold Gen.sm.generate_command_mac generateCommandMac
-  simp only [mac_mac3, bind, Except.bind, pure, Except.pure]
+  try simp only [bind_pure]      -- `do let v ← e; pure v` is `e` (single-exit rewrites)
+  simp only [mac_mac3, bind, Except.bind, pure, Except.pure, except_match_eta]
   repeat (first | rfl | split)
   all_goals first | (simp_all; done) | slice_forms
 
